@@ -11,7 +11,6 @@ use std::path::Path;
 
 use crate::errors::GeneratorOrIOError;
 use crate::generate::Generator;
-use crate::macros::{invariant, optionally_unsafe};
 use crate::params::ConstrainedFuzzyHashType;
 use crate::{GeneratorType, Tlsh};
 
@@ -43,9 +42,9 @@ fn hash_stream_common<R: Read, G: GeneratorType>(
         if len == 0 {
             break;
         }
-        optionally_unsafe! {
-            invariant!(len <= buffer.len());
-        }
+        // `len` comes from a caller-supplied (safe) `Read` implementation and
+        // cannot be trusted as an optimizer invariant: the slicing below
+        // checks it and panics cleanly if a reader over-reports.
         generator.update(&buffer[0..len]);
     }
     Ok(generator.finalize()?)
